@@ -6,6 +6,7 @@ use serde::Deserialize;
 use crate::engine::{run_replay_file, strict_replay, Expect, Opts, Report, Sub};
 
 pub mod c01;
+pub mod c02;
 pub mod common;
 
 #[derive(Deserialize, Clone, Debug)]
@@ -92,6 +93,8 @@ pub fn try_strict<S: Sub>(s: &S, property: &str, path: &Path) -> Option<i32> {
 pub fn run(id: &str, opts: &Opts) -> Option<Report> {
     Some(match id {
         "C01" => c01::run(opts),
+        "C02" => c02::run_c02(opts),
+        "C03" => c02::run_c03(opts),
         _ => return None,
     })
 }
@@ -99,6 +102,7 @@ pub fn run(id: &str, opts: &Opts) -> Option<Report> {
 pub fn replay(id: &str, path: &Path) -> Option<i32> {
     match id {
         "C01" => c01::replay(path),
+        "C02" | "C03" => c02::replay(id, path),
         _ => None,
     }
 }
